@@ -147,6 +147,15 @@ pub fn gen_program(rng: &mut Rng, tier: Tier) -> Program {
         }
         s
     };
+    let mut init = init;
+    if init.kinds != 0 && rng.chance(0.15) {
+        // one registered kind without any value yet: its first values are written by the program
+        let ks = crate::attrs::mask_kinds(init.kinds);
+        let k = *rng.pick(&ks);
+        for v in init.attrs[k].iter_mut() {
+            *v = None;
+        }
+    }
     let order = rand_order(rng, init.kinds);
     if rng.chance(0.7) {
         return gen_program_adaptive(rng.next(), init, order, kernel);
@@ -266,7 +275,14 @@ fn gen_program_adaptive(seed: u64, init: State, order: KindOrder, kernel: bool) 
             let want_focus = !focus.is_empty() && rng.chance(0.75);
             let mut chosen: Option<Op> = None;
             for _try in 0..10 {
-                let cand = if kernel && rng.chance(0.6) {
+                let cand = if rng.chance(0.1) {
+                    // the transactional removal of a free dart (now and then of a removed one)
+                    let free: Vec<u32> = (1..cur.n() as u32).filter(|&d| cur.is_free(d) && (!cur.unused[d as usize] || rng.chance(0.1))).collect();
+                    if free.is_empty() {
+                        continue;
+                    }
+                    Op::RemoveDartTx { d: *rng.pick(&free) }
+                } else if kernel && rng.chance(0.6) {
                     match kernel_op(&mut rng, &cur, None) {
                         Some(Op::MoveToAverage { .. }) | None => continue,
                         Some(o) => o,
@@ -304,7 +320,11 @@ fn gen_program_adaptive(seed: u64, init: State, order: KindOrder, kernel: bool) 
             }
             let next = map.snapshot(init2.kinds);
             for d in 1..next.n() {
-                let changed = d >= cur.n() || cur.beta[d] != next.beta[d] || cur.vtx[d] != next.vtx[d] || cur.unused[d] != next.unused[d];
+                let changed = d >= cur.n()
+                    || cur.beta[d] != next.beta[d]
+                    || cur.vtx[d] != next.vtx[d]
+                    || cur.unused[d] != next.unused[d]
+                    || (0..cur.attrs.len()).any(|k| cur.attrs[k].get(d) != next.attrs[k].get(d));
                 if changed {
                     focus.insert(d as u32);
                     for i in 0..3u8 {
